@@ -65,6 +65,15 @@ def path_rec(s):
     return {"k": k, "i": i, "t": t}
 
 
+# set per replayed history: the frames carry a named row index ("rid", a function of x) that is WRITTEN with the data
+# (C07: "... with and without partition_on and written index"); what comes back must carry the same labels
+WIDX = False
+
+
+def rid_label(x):
+    return (x * x) % 9973 + 3 * x + 20000
+
+
 def build_frame(pd, groups, chunk_of, part, nchunks=None):
     """groups: list of {k, g}; chunk_of: g -> chunk index.  Returns (frame, row_group_offsets).
     An empty chunk yields two equal offsets (it consumes a part number but writes no file)."""
@@ -88,6 +97,8 @@ def build_frame(pd, groups, chunk_of, part, nchunks=None):
                        "s": pd.Series([r[2] for r in rows], dtype="str")})
     if not part:
         df = df[["x", "s"]]
+    if WIDX:
+        df.index = pd.Index([rid_label(r[1]) for r in rows], name="rid", dtype="int64")
     return df, (offs or [0])
 
 
@@ -213,14 +224,16 @@ def evaluate(fp, d, model, ordered, ok, part):
     want = []
     for gr in model:
         for j in range(rows_of(gr["g"])):
-            want.append((KEYVALS.get(gr["k"], 0) if part else None, xval(gr["g"], j), "s%05d" % xval(gr["g"], j)))
+            want.append((KEYVALS.get(gr["k"], 0) if part else None, xval(gr["g"], j), "s%05d" % xval(gr["g"], j))
+                        + ((rid_label(xval(gr["g"], j)),) if WIDX else ()))
     try:
         pf = fp.ParquetFile(d)
         df = pf.to_pandas()
         got = []
         for i in range(len(df)):
             pv = int(df["p"].iloc[i]) if part and "p" in df.columns else None
-            got.append((pv, int(df["x"].iloc[i]), str(df["s"].iloc[i])))
+            got.append((pv, int(df["x"].iloc[i]), str(df["s"].iloc[i]))
+                       + ((int(df.index[i]) if df.index.name == "rid" else "no written index",) if WIDX else ()))
         if part and len(df) and "p" not in df.columns:
             viol.append("partition column missing from the read")
         if pf.count() != len(want) and not viol:
@@ -250,7 +263,7 @@ def do_op(fp, pd, d, opr, rec, part, fs=None):
         cm, nch = chunk_map(opr, part)
         df, offs = build_frame(pd, opr["groups"], cm, part, nch)
         fp.write(d, df, file_scheme="hive", row_group_offsets=offs, partition_on=["p"] if part else [],
-                 write_index=False, **kw)
+                 write_index=(None if WIDX else False), **kw)
         return
     groups = opr["newgroups"]
     cm, nch = chunk_map(opr, part)
@@ -260,10 +273,10 @@ def do_op(fp, pd, d, opr, rec, part, fs=None):
             # the appended frame may list its columns in another order than the dataset (matched by name)
             df = df[list(reversed(df.columns))]
         fp.write(d, df, file_scheme="hive", row_group_offsets=offs, partition_on=["p"] if part else [],
-                 append=True, write_index=False, **kw)
+                 append=True, write_index=(None if WIDX else False), **kw)
     elif kind == "overwrite":
         fp.write(d, df, file_scheme="hive", row_group_offsets=offs, partition_on=["p"], append="overwrite",
-                 write_index=False, **kw)
+                 write_index=(None if WIDX else False), **kw)
     elif kind == "wrg":
         pf = fp.ParquetFile(d, open_with=fs.open)
         bykey = any(s["c"] == "memsort" for s in steps)
@@ -273,6 +286,8 @@ def do_op(fp, pd, d, opr, rec, part, fs=None):
         def keyfn(rg):
             v = partitions(rg)
             return int(v.split("=")[1]) if v else 0
+        if WIDX:
+            df = df.reset_index()          # the handle's method takes the frame as it is stored (write() resets the index itself)
         pf.write_row_groups(df, row_group_offsets=offs, sort_key=keyfn if bykey else None, sort_pnames=sortp,
                             open_with=fs.open, mkdirs=rec.mkdirs)
     elif kind == "remove":
@@ -408,6 +423,8 @@ def replay_history(args):
         part = bool(hist[0]["part"])
         if part and hid % 2 == 1:
             part = "cat"          # every other partitioned history passes the partition column as a categorical
+        global WIDX
+        WIDX = hid % 3 == 2       # every third history writes (and appends) its frames with a named row index
         i = 0
         step = 0
         hist_fs = make_fs(Recorder(root=d))
